@@ -74,7 +74,7 @@ def run(rep, tier, seed):
             sweep = "C" in beh
             cases.append({"id": "b%d.%d" % (bi, k), "ops": ops, "sweep": sweep, "stride": (2 if tier == "quick" else 1)})
     # (b) seeded random histories: blank lines, consecutive duplicates, long lines (> 64 KiB), crashes
-    nrand = 150 if tier == "quick" else 3000
+    nrand = 600 if tier == "quick" else 3000
     for ri in range(nrand):
         ops = []
         last = None
